@@ -31,7 +31,7 @@ func (rw *readWriter) Read(p []byte) (n int, err error) {
 	rw.m.Lock()
 	defer rw.m.Unlock()
 
-	if !rw.closed.Load() && rw.buf.Len() == 0 {
+	for !rw.closed.Load() && rw.buf.Len() == 0 {
 		rw.cv.Wait()
 	}
 
